@@ -11,6 +11,7 @@ import FordModel.Lemmas.ProjectLoop
 import FordModel.Lemmas.Nesting
 import FordModel.Lemmas.Backtrack
 import FordModel.Lemmas.Markup
+import FordModel.Lemmas.EnumValues
 import FordModel.TypeSpec
 namespace Ford.C20
 open Ford
@@ -511,6 +512,77 @@ theorem escape_quirks_witness :
     ∧ Markup.lostBackslash (chars! "a\\[1].f90") = true ∧ Markup.emojiCandidate (chars! "z:x:.f90") = true := by
   decide +kernel
 
+/-! ## round 6 - defects that are found when a block is closed (enumerator values), and what a rejected
+   file leaves behind in the process (models FordModel/EnumValues.lean; tables `Gen.enumProbes`,
+   `Gen.enumLateRaise`, `Gen.leftBehind`, observed on the code by translate/c20late.py) -/
+
+/-- **Reported and skipped - enumerators.**  An ENUM block with an enumerator whose given value is not an
+    integer literal for `int` (after `remove_kind_suffix`) makes `_cleanup` raise - wherever in the block it
+    stands, whatever the other enumerators are. -/
+theorem non_integer_enumerator_raises (es : List EnumValues.Enumerator)
+    (h : es.any EnumValues.badEnumerator = true) : EnumValues.enumOk es = false :=
+  EnumValues.enumOk_false_of_bad es h
+
+/-- **Nothing is left for a later stage.**  When `_cleanup` comes through, every enumerator has its integer
+    value (one per enumerator) and none of them is a bad one: there is no enumerator whose value still has to
+    be worked out - and could fail - after the file was registered, outside the per-file handler. -/
+theorem enumerator_values_complete (es : List EnumValues.Enumerator) (vs : List Int)
+    (h : EnumValues.enumCleanup es = .ok vs) :
+    vs.length = es.length ∧ ∀ e ∈ es, EnumValues.badEnumerator e = false :=
+  EnumValues.cleanupFrom_ok es (-1) vs h
+
+/-- **Contained.**  A file with such an ENUM block - whatever its statements are otherwise, whatever other
+    ENUM blocks it has - read at *any* position leaves all project lists as if it were absent. -/
+theorem non_integer_enumerator_contained (k : Nat) (f : Str) (o : Outcome)
+    (enums : List (List EnumValues.Enumerator)) (good : List (Str × Except Err FileTree))
+    (h : enums.any (fun es => es.any EnumValues.badEnumerator) = true) :
+    (loadAll true (insertFileAt k (f, toLoad (EnumValues.fileWithEnums o enums)) good)).reg = (loadAll true good).reg := by
+  obtain ⟨e, r, he⟩ := EnumValues.fileWithEnums_skipped o enums h
+  rw [he]
+  exact contained k f e good
+
+/-- A registered file has come through the `_cleanup` of every one of its ENUM blocks. -/
+theorem registered_file_has_all_enumerator_values (o : Outcome) (enums : List (List EnumValues.Enumerator))
+    (p : List Str) (r : List Rep) (h : EnumValues.fileWithEnums o enums = .registered p r) :
+    ∀ es ∈ enums, ∃ vs, EnumValues.enumCleanup es = .ok vs ∧ vs.length = es.length := by
+  intro es hes
+  cases o with
+  | skipped e r' => simp [EnumValues.fileWithEnums] at h
+  | registered p' r' =>
+    have hall : enums.all EnumValues.enumOk = true := by
+      cases hq : enums.all EnumValues.enumOk with
+      | true => rfl
+      | false => simp [EnumValues.fileWithEnums, hq] at h
+    have hok := (List.all_eq_true.mp hall) es hes
+    unfold EnumValues.enumOk at hok
+    cases hc : EnumValues.enumCleanup es with
+    | error n => simp [hc] at hok
+    | ok vs => exact ⟨vs, rfl, (EnumValues.cleanupFrom_ok es (-1) vs hc).1⟩
+
+/-- Over the generated `enumProbes`: on every probe the model = what the real `FortranEnum._cleanup` did
+    inside the file's constructor (raised, or the values it gave the enumerators without `= value`). -/
+theorem enum_probes : Gen.enumProbes.all (fun p => decide (EnumValues.probeObs p.1 = p.2)) = true := by
+  decide +kernel
+
+/-- Over the generated `enumLateRaise`: no probe got through the constructor and made `Project.correlate()`
+    raise afterwards - a defect of an enumerator comes to light inside the per-file handler or never. -/
+theorem enum_errors_surface_inside_the_handler : Gen.enumLateRaise = [] := by decide
+
+/-- Over the generated `leftBehind`: no class- or module-level object of the reading / parsing modules has
+    another value after `Project()` over valid + rejected files (rejected in the constructor, in the reader,
+    inside an INCLUDE: reader error, recursion, missing, undecodable) than after the valid files alone. -/
+theorem rejected_files_leave_no_process_state : Gen.leftBehind = [] := by decide
+
+open Ford.TypeSpec in
+/-- `remove_kind_suffix` + `int` as they are: `2_int8` is 2, `10_8` is read as 108, `3_c_int` (a legal kind)
+    and a named constant are rejected; a bad enumerator in the middle rejects the block. -/
+theorem enumerator_value_quirks_witness :
+    EnumValues.valuesOf [⟨['a'], some (chars! "2_int8")⟩, ⟨['b'], none⟩] = some [2, 3]
+    ∧ EnumValues.valuesOf [⟨['a'], some (chars! "10_8")⟩, ⟨['b'], none⟩] = some [108, 109]
+    ∧ EnumValues.raisedFor [⟨['a'], some (chars! "3_c_int")⟩] = some ['a']
+    ∧ EnumValues.raisedFor [⟨['a'], some (chars! "1")⟩, ⟨['b'], some (chars! "offset")⟩, ⟨['c'], none⟩] = some ['b'] := by
+  decide +kernel
+
 /-! non-vacuity -/
 example : (match step {} initMS ⟨.module, "m".toList⟩ false with
            | .ok st1 => st1.stack.length | .error _ => 0) = initMS.stack.length + 1 := by decide
@@ -535,5 +607,10 @@ example : Gen.warnProbes.length ≥ 10 ∧ Gen.progressProbes.length ≥ 6
     ∧ (Gen.warnProbes.any (fun p => p.1.any (· == '[') && p.1.any (· == '/'))) = true := by decide +kernel
 example : parseFile { dbg := false } [⟨.contains, []⟩] = .skipped .printError [] := by decide
 example : parseFile { skipReported := true } [⟨.contains, []⟩] = .skipped .reported [.unexpectedContains] := by decide
+example : Gen.enumProbes.length ≥ 20 ∧ (Gen.enumProbes.any (fun p => p.2.isNone)) = true
+    ∧ (Gen.enumProbes.any (fun p => p.2.isSome)) = true := by decide +kernel
+open Ford.TypeSpec in
+example : EnumValues.fileWithEnums (parseFile {} [⟨.module, ['m']⟩, ⟨.enum, []⟩, ⟨.variable, ['a']⟩, ⟨.endUnit, []⟩, ⟨.endUnit, []⟩])
+    [[⟨['a'], some (chars! "1.5")⟩]] = .skipped .enumValue [] := by decide +kernel
 
 end Ford.C20
